@@ -320,6 +320,19 @@ func nudge(c context) context {
 	return c
 }
 
+// nudgeForJoin is like nudge, but leaves a context that is still before an attribute
+// value alone. A branch that wrote nothing after the "=" has not started an unquoted
+// value: the browser skips the white space that follows and takes the next token as
+// the value, so
+//   <img title={{if .C}}x{{end}} alt="{{.X}}">
+// must not be joined into "after the unquoted value x".
+func nudgeForJoin(c context) context {
+	if c.state == stateBeforeValue {
+		return c
+	}
+	return nudge(c)
+}
+
 // join joins the two contexts of a branch template node. The result is an
 // error context if either of the input contexts are error contexts, or if the
 // input contexts differ.
@@ -369,7 +382,7 @@ func join(a, b context, node parse.Node, nodeName string) context {
 	//   <p title={{if .C}}{{.}}{{end}}
 	// ends in an unquoted value state even though the else branch
 	// ends in stateBeforeValue.
-	if c, d := nudge(a), nudge(b); !(c.eq(a) && d.eq(b)) {
+	if c, d := nudgeForJoin(a), nudgeForJoin(b); !(c.eq(a) && d.eq(b)) {
 		if e := join(c, d, node, nodeName); e.state != stateError {
 			return e
 		}
